@@ -15,8 +15,12 @@ static uint32_t fnv(const unsigned char *p, size_t n) {
   for (size_t i = 0; i < n; i++) { h ^= p[i]; h *= 16777619u; }
   return h;
 }
+static void upgflag_hook(int flag) {
+  if (flag == 1 && update) sdk_out("EXP %d", update->expected_file_size); /* UPGRADE_FLAG_START: the length the scanner read */
+}
 int main(void) {
   static unsigned char buf[40000];
+  sdk_upgflag_hook = upgflag_hook;
   static unsigned char seg[70000];
   sdk_log_echo = 0;
   sdk_restart_armed = 1;
